@@ -1,6 +1,6 @@
 (* Proofs about the generic multiplexer model (Verif.Abci.Mux). *)
 From Coq Require Import Permutation Sorted.
-From Verif Require Import Lib.Base Abci.Mux.
+From Verif Require Import Lib.Base Gen.MuxOrder Abci.Mux.
 
 (* ------------------------------------------------------------------ *)
 (* byte-wise order                                                     *)
@@ -183,7 +183,8 @@ Section MuxProofs.
   Theorem exec_block_local c1 c2 apps pg s b :
     exec_block S c1 apps pg s b = exec_block S c2 apps pg s b.
   Proof.
-    unfold exec_block. destruct (begin_all S apps (binfo_of b) s []) as [[s1 bev]|]; [|reflexivity].
+    unfold exec_block. destruct (sg_upgrade_begin S (b_header b) s) as [[s0 uev0]|]; [|reflexivity].
+    destruct (begin_all S apps (binfo_of b) s0 uev0) as [[s1 bev]|]; [|reflexivity].
     rewrite (deliver_all_local c1 c2). reflexivity.
   Qed.
 
@@ -247,15 +248,19 @@ Section MuxProofs.
   Proof.
     intros Hm. unfold exec_block. cbn [b_header b_txs b_commit b_misb binfo_of].
     unfold binfo_of. cbn [b_header b_commit b_misb].
-    destruct (begin_all S apps _ s []) as [[s1 bev]|]; [|discriminate].
+    (* the fact read from mux.go: the upgrade handlers run before the system-tx validation *)
+    change endblock_upgrade_before_validate with true. cbn iota.
+    destruct (sg_upgrade_begin S hd s) as [[s0 uev0]|]; [|discriminate].
+    destruct (begin_all S apps _ s0 uev0) as [[s1 bev]|]; [|discriminate].
     rewrite (deliver_all_local cfg' cfg).
     destruct (deliver_all S cfg apps (h_proposer hd) true cands s1 [] []) as [[[s2 txr] sc]|] eqn:Ed; [|discriminate].
     apply deliver_all_proposing in Ed as [Ed Esc]. subst sc.
     destruct (end_all S apps s2 [] []) as [[[s3 eev] vu]|] eqn:Ee; [|discriminate].
+    destruct (sg_upgrade_end S hd s3) as [[s4 uev]|] eqn:Eu; [|discriminate].
     cbn [validate_system]. intros H. inversion H; subst s' o; clear H. cbn [o_events_root].
     rewrite deliver_all_app, Ed. cbn [deliver_all].
-    destruct (Hm s2 (sg_root S s3) (sg_evroot S (all_events S (mkOut S bev txr eev vu [])))) as (t & Hd & Hi & Hk).
-    unfold process_tx. rewrite Hd, Hi, Hk. cbn [negb Datatypes.app]. rewrite Ee.
+    destruct (Hm s2 (sg_root S s4) (sg_evroot S (all_events S (mkOut S bev txr (eev ++ uev) vu [])))) as (t & Hd & Hi & Hk).
+    unfold process_tx. rewrite Hd, Hi, Hk. cbn [negb Datatypes.app]. rewrite Ee, Eu.
     unfold validate_system. unfold all_events. cbn [o_begin_events o_tx o_end_events].
     rewrite flat_map_snd_app. rewrite !bytes_eqb_refl. cbn [andb]. reflexivity.
   Qed.
@@ -834,7 +839,9 @@ Definition toy : msig := mkSig
   (fun _ s => 0)
   (fun s => [s mod 256])
   (fun evs => [N.of_nat (length evs) mod 256])
-  (fun key sr er => 255 :: N.of_nat (length sr) :: sr ++ er).
+  (fun key sr er => 255 :: N.of_nat (length sr) :: sr ++ er)
+  (fun hd s => Some (s, []))
+  (fun hd s => if h_height hd =? 2 then Some (s + 100, [777]) else Some (s, [])).
 
 Lemma toy_meta_wf key pr : meta_wf toy key pr.
 Proof.
@@ -988,3 +995,20 @@ Proof.
       apply Hcm. intros c Hc. vm_compute in Hc. inversion Hc; subst c. vm_compute. reflexivity. }
   split; [reflexivity|]. vm_compute. split; [reflexivity|discriminate].
 Qed.
+
+(* The step orders of BeginBlock / EndBlock that exec_block relies on, as read from mux.go by
+   harness/cmd/gen muxorder: the consensus-upgrade handlers (which write state) run before the
+   block-metadata validation, after the applications' EndBlock; in BeginBlock they run before
+   the applications.  [prepared_block_reexecutes] (hence cached_equals_reexecution and every
+   ProposeCached case) is proved under the first fact. *)
+Lemma mux_step_order :
+  endblock_upgrade_before_validate = true /\ endblock_apps_before_validate = true /\
+  beginblock_upgrade_before_apps = true.
+Proof. repeat split; reflexivity. Qed.
+
+(* the toy signature has a migration due at height 2 which writes state and emits an event in
+   EndBlock: the block of height 2 in [toy_history_agrees] executes it on both replicas *)
+Example toy_upgrade_block_executes :
+  option_map (fun x => map (o_end_events toy) (snd x)) (observe toy (run toy toy_n1 toy_ops1))
+  = Some [[300]; [300; 777]].
+Proof. vm_compute. reflexivity. Qed.
